@@ -27,6 +27,7 @@ type Prog struct {
 	cindex   map[string]*FuncContract // "pkgpath#Recv.Name"
 	Root     string
 	loadErrs []string
+	loadedFiles map[string]bool
 	wsets    map[*ssa.Function]*wset
 	pureFields map[string]bool // heap keys of function-valued fields declared pure
 	guarded    map[string]string // heap key of a field -> heap key of the mutex field (same object) that protects it
@@ -53,6 +54,7 @@ func LoadProg(root string, patterns []string, tags string, cs *ContractSet) (*Pr
 		return nil, err
 	}
 	p := &Prog{Pkgs: pkgs, ByPath: map[string]*ssa.Package{}, TypesPkg: map[string]*types.Package{}, CS: cs, Root: root, cindex: map[string]*FuncContract{}}
+	loadedFiles := map[string]bool{}
 	packages.Visit(pkgs, nil, func(pk *packages.Package) {
 		for _, e := range pk.Errors {
 			p.loadErrs = append(p.loadErrs, e.Error())
@@ -60,7 +62,14 @@ func LoadProg(root string, patterns []string, tags string, cs *ContractSet) (*Pr
 		if pk.Types != nil {
 			p.TypesPkg[pk.PkgPath] = pk.Types
 		}
+		for _, f := range pk.CompiledGoFiles {
+			loadedFiles[f] = true
+		}
+		for _, f := range pk.GoFiles {
+			loadedFiles[f] = true
+		}
 	})
+	p.loadedFiles = loadedFiles
 	if len(p.loadErrs) > 0 {
 		return nil, fmt.Errorf("package load errors: %s", strings.Join(p.loadErrs, "; "))
 	}
@@ -250,6 +259,50 @@ func sortedKeys[T any](m map[string]T) []string {
 	var out []string
 	for k := range m {
 		out = append(out, k)
+	}
+	sort.Strings(out)
+	return out
+}
+
+// staleHeaders lists contract headers that name no function or method in a loaded package: such a contract would be
+// silently ignored at every call site (an interface-method or external contract has no body whose verification would
+// notice). Packages that are not loaded for this property are skipped - nothing there can be called.
+func (p *Prog) staleHeaders() []string {
+	var out []string
+	for key, fc := range p.cindex {
+		i := strings.Index(key, "#")
+		path := key[:i]
+		if path == "" {
+			continue // universe methods (error.Error)
+		}
+		tp := p.TypesPkg[path]
+		if tp == nil {
+			continue
+		}
+		if !fc.External && strings.HasSuffix(fc.File, ".go") && !p.loadedFiles[fc.File] {
+			continue // the contract file's build constraint is not satisfied in this load (adapter packages)
+		}
+		if closureNameRe.MatchString(fc.Name) {
+			if p.FindFunc(fc) == nil {
+				out = append(out, key)
+			}
+			continue
+		}
+		if fc.Recv == "" {
+			if _, ok := tp.Scope().Lookup(fc.Name).(*types.Func); !ok {
+				out = append(out, key)
+			}
+			continue
+		}
+		tn, ok := tp.Scope().Lookup(fc.Recv).(*types.TypeName)
+		if !ok {
+			out = append(out, key)
+			continue
+		}
+		obj, _, _ := types.LookupFieldOrMethod(tn.Type(), true, tp, fc.Name)
+		if _, ok := obj.(*types.Func); !ok {
+			out = append(out, key)
+		}
 	}
 	sort.Strings(out)
 	return out
